@@ -117,7 +117,9 @@ def format_trashinfo_post(original_location, deletion_date, result):
 def for_file_post(self, path, path_maker_type, volume_top_dir, result):
     SINK.count('for_file')
     from trashcli.put.core.path_maker_type import PathMakerType
-    ent = spec.real_entry(os.path.abspath(path))
+    # no lexical normalisation: 'link/../x' must be resolved by the kernel
+    ent = spec.real_entry(path if path.startswith('/') else
+                          os.path.join(os.getcwd(), path))
     if path_maker_type == PathMakerType.AbsolutePaths:
         if not result.startswith('/'):
             SINK.fail('for_file', 'not absolute: %s' % r(result))
